@@ -16,9 +16,16 @@ Ltac break_ifs :=
 Section NP.
   Variable O : oracle.
 
+  (* the one index expression of the key decoders: `bytes[0]` is evaluated only when len = 49 *)
+  Lemma v3_decode_public_no_panic bs : is_panic (v3_decode_public O bs) = false.
+  Proof.
+    unfold v3_decode_public. destruct (Nat.eqb_spec (length bs) 49) as [E|E]; cbn [negb]; [|reflexivity].
+    destruct bs as [|b0 bs']; [discriminate E|]. break_ifs; reflexivity.
+  Qed.
+
   Theorem key_decode_no_panic b k bs : is_panic (key_decode O b k bs) = false.
   Proof.
-    destruct k, b; cbn [key_decode]; unfold decode_local, dalek_decode_public, dalek_decode_secret, na_decode_public,
+    destruct k, b; cbn [key_decode]; try apply v3_decode_public_no_panic; unfold decode_local, dalek_decode_public, dalek_decode_secret, na_decode_public,
       na_decode_secret, v3_decode_public, v3_decode_secret, lc_decode_public, lc_decode_secret, v1_decode_public, v1_decode_secret;
       try (break_ifs; reflexivity);
       (* dalek secret *)
